@@ -498,12 +498,12 @@ def check_programs(ctx):
             cases.append(build_case("p%d" % k, r, pend, b))
             k += 1
     # boundary lengths through the datagram builders, spelled in hex over many adjacent lines
-    sizes = [0, 1, 255, 256, 1472, 9000] + ([65507] if ctx.thorough else [20000])
+    sizes = [0, 1, 255, 256, 1472, 8192, 9000] + ([65507] if ctx.thorough else [20000])
     for n in sizes:
         data = bytes(r.getrandbits(8) for _ in range(n))
         forced = lambda pg, data=data: [pg.pend.lit(data, psplit=1.0, fillp=0.05)]
-        for b in ("udp_unicast", "datagram"):
-            if b == "datagram" and n > 65515:
+        for b in ("udp_unicast", "datagram") + (("frag_tail0", "frag_datagram", "frag_whole") if n >= 8192 or n in (255, 1472) else ()):
+            if b != "udp_unicast" and n > 65515:
                 continue
             c = build_case("z%d" % k, r, pend, b, forced)
             c.gen["kind"] = "boundary length"
